@@ -2,7 +2,7 @@ SPECIFICATION RSpec
 CONSTANTS
   Pool = "c"
   MaxActions = 1
-  MaxOps = 3
+  MaxOps = 4
   MaxPick = 2
   Layouts = {"aux-first"}
 INVARIANTS RTypeOK ItfTheorems SubsConsistent GetSeesLastSet GetDenotesLastSet DeliveredIffSubscribed RefsDenoteSent ExecutedOnce ImplHoldsServiceIds ClientRefsResolvable ForwardersSound HandlesFresh
